@@ -1185,7 +1185,8 @@ def select__outermost(self: XPathFunction, context: ta.ContextType = None) \
 @method(function('head', nargs=1, sequence_types=('item()*', 'item()?')))
 def evaluate__head(self: XPathFunction, context: ta.ContextType = None) \
         -> ta.OneOrEmpty[ta.ItemType]:
-    for item in self[0].select(self.context or context):
+    # only the first item is consumed: the operand works on a copy of the context
+    for item in self[0].select(copy(self.context or context)):
         return item
     else:
         return []
